@@ -184,8 +184,8 @@ func runC19(p *eng.Prog, r *eng.Report, tier string) {
 				// element: its predicate has no condition beyond these three
 				inner := ast.Unparen(pc.Fun).(*ast.CallExpr)
 				okPred, whyPred := false, "the predicate is not a function literal with a single return"
-				if lit, ok := ast.Unparen(inner.Args[0]).(*ast.FuncLit); ok && len(lit.Body.List) == 1 {
-					if rs, ok := lit.Body.List[0].(*ast.ReturnStmt); ok && len(rs.Results) == 1 {
+				if lit, ok := ast.Unparen(inner.Args[0]).(*ast.FuncLit); ok && len(stripNoops(lit.Body.List)) == 1 {
+					if rs, ok := stripNoops(lit.Body.List)[0].(*ast.ReturnStmt); ok && len(rs.Results) == 1 {
 						lf := c.p.FnOfLit(lit)
 						var conj []ast.Expr
 						var split func(e ast.Expr)
